@@ -147,7 +147,14 @@ def gen_program(seed, k, tier):
                            fa=float(rng.choice([0.5, -0.25, 1.5])),
                            fb=float(rng.choice([1.25, 0.75]))))
             texts.append(text)
-        groups.append(Group(equations=eqs))
+        kw = {}
+        if rng.random() < 0.25:
+            # swept a documented number of times (the default converged()
+            # says yes, so the minimum decides; or the maximum, when equal)
+            mn = int(rng.integers(1, 3))
+            kw = dict(iterate=True, min_iterations=mn,
+                      max_iterations=mn + int(rng.integers(0, 2)))
+        groups.append(Group(equations=eqs, **kw))
     kn = [n for n in evalkit.kernels() if ('1D' in n) == (dim == 1) or
           n in ('CubicSpline', 'Gaussian', 'QuinticSpline', 'SuperGaussian')]
     kname = forced_kernel
@@ -166,14 +173,21 @@ def run_program(meta, groups, pas, mon, viol, flavour_note='', pas2=None):
 
     def mk_post(i):
         def post():
-            snaps.append(snapshot(cur['pas']))
+            # once per sweep of an iterated group
+            snaps.append((i, snapshot(cur['pas'])))
+        return post
+    ref_sweeps = {}
+
+    def mk_count(i):
+        def post():
+            ref_sweeps[i] = ref_sweeps.get(i, 0) + 1
         return post
     ref_groups = []
     originals = {}
     for i, g in enumerate(groups):
         rg = copy.copy(g)
         rg.equations = [copy.deepcopy(e) for e in g.equations]
-        rg.post = None
+        rg.post = mk_count(i)
         ref_groups.append(rg)
         originals[id(rg)] = [copy.deepcopy(e.__dict__) for e in rg.equations]
         g.post = mk_post(i)
@@ -188,9 +202,14 @@ def run_program(meta, groups, pas, mon, viol, flavour_note='', pas2=None):
         s0 = snapshot(pas)
         ev.compute(0.3, 0.01)
         mon['programs'] = mon.get('programs', 0) + 1
-        if len(snaps) != len(groups):
-            return ('post-callbacks', '%d post calls for %d groups' % (
-                len(snaps), len(groups)))
+        per = {}
+        for i_, sn_ in snaps:
+            per.setdefault(i_, []).append(sn_)
+        if sorted(per) != list(range(len(groups))) or \
+                [i_ for i_, _ in snaps] != sorted(i_ for i_, _ in snaps):
+            return ('post-callbacks', 'post calls of groups %s for %d groups'
+                    % ([i_ for i_, _ in snaps], len(groups)))
+        ref_sweeps.clear()
         # neighbours in the order the real NNPS returns them (positions never
         # change inside a program: the generated equations do not write x,y,z,h)
         nb = UIntArray()
@@ -219,7 +238,7 @@ def run_program(meta, groups, pas, mon, viol, flavour_note='', pas2=None):
             ref = refeval.RefEval(pas, [rg], kernel, neighbours)
             ref.before_loop = before_loop
             load_into(ref, prev)
-            prev = snaps[gi]
+            prev = per[gi][-1]
             try:
                 ref.compute(0.3, 0.01)
             except refeval.PyUndefined as e:
@@ -236,9 +255,26 @@ def run_program(meta, groups, pas, mon, viol, flavour_note='', pas2=None):
                     repr(e)[:120]))
                 continue
             mon['groups_compared'] = mon.get('groups_compared', 0) + 1
+            if rg.iterate:
+                mon['iterated_groups_compared'] = mon.get(
+                    'iterated_groups_compared', 0) + 1
+            if ref_sweeps.get(gi, 0) != len(per[gi]):
+                key = 'sweeps:%s' % ('generated-equation' if meta['kind'] ==
+                                     'generated' else 'shipped')
+                if sum(1 for v in viol if v['key'] == key) < 2:
+                    viol.append(dict(
+                        key=key, what='[%s] group %d (iterate=%s, min %s, max '
+                        '%s) swept %d times by the compiled evaluator, %d '
+                        'times by the documented rule' % (
+                            phase, gi, rg.iterate, rg.min_iterations,
+                            rg.max_iterations, len(per[gi]),
+                            ref_sweeps.get(gi, 0)),
+                        case=dict(meta=meta, group=gi)))
+                mon['violating_groups'] = mon.get('violating_groups', 0) + 1
             mon['equations_compared'] = mon.get('equations_compared', 0) + len(
                 rg.equations)
-            bad = compare(ref, snaps[gi], meta['exact'], meta.get('ulps', 64))
+            bad = compare(ref, per[gi][-1], meta['exact'],
+                          meta.get('ulps', 64))
             if bad and meta['kind'] == 'shipped' and bad[5] != 'int' and not (
                     np.isfinite(bad[3]) and np.isfinite(bad[4])):
                 # random admissible-looking data drove a shipped formula outside
